@@ -24,7 +24,13 @@ use crate::{Error, Result};
 use nervusdb_api::{GraphSnapshot, GraphStore};
 use std::collections::BTreeMap;
 use std::path::{Path, PathBuf};
+#[cfg(nervusdb_verif)]
+use nervusdb_api::verif::sync::atomic::{AtomicU64, Ordering};
+#[cfg(nervusdb_verif)]
+use nervusdb_api::verif::sync::{Arc, Mutex, RwLock};
+#[cfg(not(nervusdb_verif))]
 use std::sync::atomic::{AtomicU64, Ordering};
+#[cfg(not(nervusdb_verif))]
 use std::sync::{Arc, Mutex, RwLock};
 
 type NativeHnsw = HnswIndex<PersistentVectorStorage, PersistentGraphStorage>;
@@ -667,12 +673,29 @@ fn build_segment_from_runs(seg_id: SegmentId, runs: &Arc<Vec<Arc<L0Run>>>) -> Cs
 /// that a transaction reported as failed can never reappear after a restart and no
 /// partial transaction stays in the middle of the log.
 struct LoggedTx<'w> {
+    #[cfg(not(nervusdb_verif))]
     wal: std::sync::MutexGuard<'w, Wal>,
+    #[cfg(nervusdb_verif)]
+    wal: nervusdb_api::verif::sync::MutexGuard<'w, Wal>,
     tx_start: u64,
     keep: bool,
 }
 
 impl<'w> LoggedTx<'w> {
+    #[cfg(nervusdb_verif)]
+    fn begin(
+        mut wal: nervusdb_api::verif::sync::MutexGuard<'w, Wal>,
+        txid: u64,
+    ) -> Result<Self> {
+        let tx_start = wal.append(&WalRecord::BeginTx { txid })?;
+        Ok(Self {
+            wal,
+            tx_start,
+            keep: false,
+        })
+    }
+
+    #[cfg(not(nervusdb_verif))]
     fn begin(mut wal: std::sync::MutexGuard<'w, Wal>, txid: u64) -> Result<Self> {
         let tx_start = wal.append(&WalRecord::BeginTx { txid })?;
         Ok(Self {
@@ -710,7 +733,10 @@ impl Drop for LoggedTx<'_> {
 
 pub struct WriteTxn<'a> {
     engine: &'a GraphEngine,
+    #[cfg(not(nervusdb_verif))]
     _guard: std::sync::MutexGuard<'a, ()>,
+    #[cfg(nervusdb_verif)]
+    _guard: nervusdb_api::verif::sync::MutexGuard<'a, ()>,
     txid: u64,
     created_nodes: Vec<(ExternalId, LabelId, InternalNodeId)>,
     /// Label additions (`true`) and removals (`false`) in the order they were issued.
